@@ -1,6 +1,6 @@
 """Adapter for spec/EncutilsContract.tla <-> encutils.getEncodingInfo / detectXMLEncoding / encodingByMediaType (C20)."""
 import sys, io, email.message
-sys.path.insert(0, "/repo")
+sys.path.insert(0, __import__("os").environ.get("VERIF_REPO", "/repo"))
 import encutils  # noqa: E402
 
 MEDIA = {"appxml": ["application/xml", "Application/XML-DTD"], "appxmlplus": ["application/atom+xml", "application/xhtml+xml"],
